@@ -309,6 +309,13 @@ static void run_step(World& w, const vj::Value& st)
       else throw std::runtime_error("transpose not offered by " + S.fmt);
     });
   }
+  else if(op == "tinplace")
+  {
+    with_slot(S, [&](auto fs, auto, auto& a) {
+      if constexpr (decltype(fs)::id == 3) a.transpose_inplace();
+      else throw std::runtime_error("transpose_inplace not offered by " + S.fmt);
+    });
+  }
   else if(op == "permute")
   {
     IVec p = st["p"].ints(), q = st["q"].ints();
